@@ -59,12 +59,13 @@ def dumpChart (c : Chart) : String :=
 open Chartparse.Py in
 def showPy : M Val → String
   | .ok (.int n) => s!"int {n}" | .ok (.flt x) => s!"flt {showRat x}" | .ok (.bool b) => s!"bool {b}"
-  | .ok (.td us) => s!"td {us}" | .ok .none => "none" | .error e => showErr e
+  | .ok (.td us) => s!"td {us}" | .ok .none => "none" | .ok (.enum n) => s!"enum {n}" | .ok (.obj _) => "obj" | .error e => showErr e
 
 open Chartparse.Py in
 def parsePyVal (s : String) : Val :=
   match s.splitOn ":" with
-  | ["i", n] => .int n.toInt! | ["f", x] => .flt (parseRat x) | ["t", n] => .td n.toInt! | _ => .none
+  | ["i", n] => .int n.toInt! | ["f", x] => .flt (parseRat x) | ["t", n] => .td n.toInt!
+  | ["b", v] => .bool (v == "1") | ["o", bits] => .obj (bits.toList.map (· == '1')) | _ => .none
 
 /-- prefix-notation expression: `int n` | `var x` | `bin op a b` | `cmp op a b` | `round a` | `roundN n a` | `intOf a` | `cast a` |
     `abs a` | `tsec a` | `tdus a`; returns the expression and the unread tokens -/
@@ -100,6 +101,10 @@ def runLeaf (name : String) (args : List String) : String :=
   | "valid", [x] => showPy (evalBody [("self.bpm", x)] bpmValidate)
   | "nps", [s, e, c] => showPy (evalBody [("start_time", s), ("end_time", e), ("num_events_to_consider", c)] notesPerSecond)
   | "anchor", [us] => showPy (valueOf [("data.microseconds", us)] anchorTimestamp "timestamp")
+  | "hopo", [thr, tick, note, chord, tap, forced, prev, ptick, pnote] =>
+    showPy (evalBody ([("tick", tick), ("is_tap", tap), ("is_forced", forced), ("note", note), ("note.is_chord()", chord),
+        ("chartparse.tick.note_duration_to_ticks(resolution, NoteDuration.EIGHTH_TRIPLET)", thr), ("previous", prev)] ++
+        (if prev == .none then [] else [("previous.tick", ptick), ("previous.note", pnote)])) computeHopoState)
   | _, _ => "bad-leaf"
 
 def parseWant (s : String) : Option (List (Nat × Nat)) :=
